@@ -905,6 +905,15 @@ def _legacy_handler_cfgs():
         inst(float, str), None, "f1.5", kind="LegacyCompound")
     cfg("Trait(0,int,complex)", lambda: Trait(0, int, complex),
         inst(int, complex), None, "i1", kind="LegacyCompound")
+    from traits.api import TraitInstance
+    cfg("Trait(None,TraitInstance('A'),int)",
+        lambda: Trait(None, TraitInstance("A", module="props.lattice"), int),
+        lambda s: s is None or isinstance(s, (A, int)), None, "A0",
+        kind="LegacyCompound")
+    cfg("Trait(None,TraitInstance('A'))",
+        lambda: Trait(None, TraitInstance("A", module="props.lattice")),
+        lambda s: s is None or isinstance(s, A), None, "A0",
+        kind="LegacyInstance")
     cfg("Trait(None,A,float)", lambda: Trait(None, A, float),
         lambda s: s is None or isinstance(s, (A, float)), None, "A0",
         kind="LegacyCompound")
